@@ -436,7 +436,10 @@ Fixpoint from_context_parts (fuel : nat) (ol nl_ : list (cxop * line)) (acc : li
       end
   end.
 
+Definition has_bang (l : list (cxop * line)) : bool := existsb (fun x => match fst x with XBang => true | _ => false end) l.
+
 Definition hunk_from_context_parts (ostart : Z) (ol : list (cxop * line)) (nstart : Z) (nl_ : list (cxop * line)) : res hunk :=
+  if (is_nil nl_ && has_bang ol) || (is_nil ol && has_bang nl_) then Throw EInvalidArgument else
   do x <- from_context_parts (S (length ol + length nl_)) ol nl_ [] 0 0;
   let '(b, oc, nc) := x in Ok (mkHunk (mkRange ostart oc) (mkRange nstart nc) b).
 
